@@ -303,6 +303,48 @@ theorem delete_variables_commute (o : Objs) (v w : String) :
       simp_all [List.mem_filter]
 
 
+theorem deleteVar_registered (o : Objs) (v w : String) (h : Registered o w) : Registered (deleteVar o v) w := by
+  intro p hp hw
+  rw [(deleteVar_closed o v).2] at hp
+  have hp' := List.mem_filter.mp hp
+  show p.1 ∈ (deleteVar o v).refs w
+  have : (deleteVar o v).refs w = (o.refs w).filter (fun b => !(o.refs v).contains b) := delLoop_refs _ o v w (Nat.le_refl _)
+  rw [this]
+  exact List.mem_filter.mpr ⟨h p hp'.1 hw, hp'.2⟩
+
+theorem applyDel_registered (o : Objs) (op : DelOp) (h : ∀ w, Registered o w) : ∀ w, Registered (applyDel o op) w := by
+  intro w
+  cases op with
+  | var v => exact deleteVar_registered o v w (h w)
+  | bias b => exact deleteBias_registered o w b (h w)
+
+theorem applyDel_subset (o : Objs) (op : DelOp) : ∀ p ∈ (applyDel o op).biases, p ∈ o.biases := by
+  intro p hp
+  cases op with
+  | var v => exact delLoop_subset _ o v p hp
+  | bias b => exact (List.mem_filter.mp hp).1
+
+theorem runDel_subset (ops : List DelOp) : ∀ (o : Objs), ∀ p ∈ (ops.foldl applyDel o).biases, p ∈ o.biases := by
+  induction ops with
+  | nil => intro o p hp; exact hp
+  | cons op ops ih => intro o p hp; exact applyDel_subset o op p (ih _ p hp)
+
+/-- **any sequence of deletions**, starting from any configuration: once a variable has been deleted no bias that depends on it is
+    left, then or at any later point of the sequence (a bias never outlives a variable it reads). -/
+theorem deletions_leave_no_dangling_bias (vars : List String) (biases : List (String × List String)) (pre post : List DelOp) (v : String) :
+    ∀ p ∈ ((pre ++ DelOp.var v :: post).foldl applyDel (ofConfig vars biases)).biases, v ∉ p.2 := by
+  intro p hp
+  rw [List.foldl_append, List.foldl_cons] at hp
+  have hreg : ∀ (ops : List DelOp) (o : Objs), (∀ w, Registered o w) → ∀ w, Registered (ops.foldl applyDel o) w := by
+    intro ops
+    induction ops with
+    | nil => intro o h; exact h
+    | cons op ops ih => intro o h; exact ih _ (applyDel_registered o op h)
+  have h1 := hreg pre (ofConfig vars biases) (fun w => ofConfig_registered vars biases w)
+  have h2 := runDel_subset post _ p hp
+  exact (delete_variable _ v (h1 v)).2.1 p h2
+
+
 end objects
 
 end Cv.C20
